@@ -448,7 +448,7 @@ class Result:
 
 
 GLOBAL_TRUSTED = [
-    "Coq 8.16.1 kernel + vm_compute (no native_compute); coqchk re-check in thorough tier",
+    "Coq 8.16.1 kernel + vm_compute (no native_compute); independent re-check with coqchk -o: tools/coqchk (separate command, output in evidence/coqchk.txt)",
     "Coq standard library (NArith, ZArith, List, Lia/nia, Zify); no axioms declared by this development",
     "translator harness/gen_dump.c + C compiler (coq/Gen/*.v regenerated from /repo on every run)",
     "extraction: ExtrOcamlBasic only (bool, option, list, prod, unit, sumbool mapped to OCaml's), no Extract Constant; OCaml 4.13.1; hand-written ocaml/*.ml replay drivers",
